@@ -29,7 +29,7 @@ var c20Hops = []c20Hop{
 var c20Values = []struct{ name, lit string }{
 	{"int", "5"}, {"zero", "0"}, {"float", "2.5"}, {"str", "\"ab\""}, {"numstr", "\"3\""}, {"true", "true"}, {"nil", "nil"},
 	{"slice", "[1, 2, 3]"}, {"emptyslice", "[]"}, {"map", "{\"k\": 1}"}, {"func", "func(a) { return 7 }"},
-	{"nested", "[[1], [2]]"},
+	{"nested", "[[1], [2]]"}, {"bigint", "9007199254740993"}, {"negbig", "-9007199254740993"}, {"ptr", "new(int64)"},
 }
 
 // templates: %s is the operand expression; statements are wrapped so that the result is an expression value
@@ -57,7 +57,11 @@ var c20Templates = []struct{ name, code string }{
 	{"defer", "r = \"ok\"; func() { defer %s(1) }() ?? (r = \"E\")"},
 	{"var", "var q = %s; r = q"}, {"multi", "q, w = (%s); r = [q, w ?? \"undef\"]"},
 	{"return", "r = func() { return %s, 1 }()"}, {"arg-go", "r = probe(%s)"}, {"arg2", "r = probe2(1, %s)"},
-	{"var-go", "r = hvar(1, %s)"}, {"tostr", "r = (\"\" + %s) ?? \"E\""}, {"keys-like", "r = []; try { for k, v in %s { r += v } } catch e { r = \"E\" }"},
+	{"var-go", "r = hvar(1, %s)"},
+	{"lt-big", "r = (%s < 9007199254740994) ?? \"E\""}, {"gt-big", "r = (%s > 9007199254740992) ?? \"E\""},
+	{"le-big", "r = (%s <= 9007199254740992) ?? \"E\""}, {"ge-big-l", "r = (9007199254740994 >= %s) ?? \"E\""},
+	{"lt-negbig", "r = (-9007199254740994 < %s) ?? \"E\""}, {"neq", "r = (%s != 5) ?? \"E\""}, {"eq-float", "r = (%s == 2.5) ?? \"E\""},
+	{"eq-self", "r = (%s == v) ?? \"E\""}, {"neq-self", "r = (v != %s) ?? \"E\""}, {"deref", "r = \"ok\"; try { r = *%s } catch e { r = \"E\" }"}, {"tostr", "r = (\"\" + %s) ?? \"E\""}, {"keys-like", "r = []; try { for k, v in %s { r += v } } catch e { r = \"E\" }"},
 }
 
 func c20Chains(maxLen int) [][]int {
